@@ -39,6 +39,8 @@ impl VerifierChannel<BaseElement> for ChannelDouble {
 type V = FriVerifier<BaseElement, ChannelDouble, StubHasher, RecordingCoin>;
 
 /// FriVerifier::new on k = 3 commitments (2 layers + remainder), folding factor 4:
+///  * a commitment list whose length is not (number of folding steps of the options) + 1 is refused before anything is
+///    absorbed (otherwise verify would run past the layers the channel holds);
 ///  * every commitment is absorbed by the coin and exactly one challenge is drawn right after it, in order;
 ///    the challenge stored for layer i is the one drawn after commitment i (Fiat-Shamir order, C04);
 ///  * DegreeTruncation(depth) is returned iff (d + 1) is not divisible by 4^(depth+1) for some non-final depth (C05).
@@ -47,22 +49,26 @@ type V = FriVerifier<BaseElement, ChannelDouble, StubHasher, RecordingCoin>;
 #[kani::stub(alloc::fmt::format, fmt_stub)]
 fn fri_verifier_new_contract() {
     // degree bounds are enumerated concretely (the domain generator is computed by a 64-step
-    // exponentiation whose exponent depends on the degree): 2^k - 1 (accepted), a multiple of 4 but not
-    // of 16, and one that is not a multiple of 4
-    new_for(63);
-    new_for(255);
-    new_for(31);
-    new_for(11);
-    new_for(62);
-    new_for(14);
+    // exponentiation whose exponent depends on the degree), with the number of folding steps of the schedule
+    // (blowup 8, folding 4, remainder degree 3) computed by hand: 2^k - 1 (accepted), multiples of 4 that are not
+    // multiples of 16, one that is not a multiple of 4, and two whose schedule has 3 resp. 1 folding steps
+    new_for(63, 2);
+    new_for(31, 2);
+    new_for(27, 2);
+    new_for(19, 2);
+    new_for(62, 2);
+    new_for(255, 3);
+    new_for(11, 1);
 }
 
-fn new_for(d: usize) {
+fn new_for(d: usize, folding_steps: usize) {
     let c: [u64; 3] = kani::any();
     let seed: u64 = kani::any();
     let mut ch = ChannelDouble { commitments: Some(alloc::vec![sd(c[0]), sd(c[1]), sd(c[2])]), remainder: None, partitions: 1 };
     let mut coin = RecordingCoin::fresh(seed);
-    let r = V::new(&mut ch, &mut coin, FriOptions::new(8, 4, 3), d);
+    let options = FriOptions::new(8, 4, 3);
+    assert!(options.num_fri_layers(d.next_power_of_two() * 8) == folding_steps);
+    let r = V::new(&mut ch, &mut coin, options, d);
     // expected transcript
     let s0 = stub_merge(seed, c[0]);
     let (s0d, a0) = RecordingCoin::expected_draw(s0);
@@ -73,6 +79,7 @@ fn new_for(d: usize) {
     let dp1 = d + 1;
     match r {
         Ok(v) => {
+            assert!(folding_steps + 1 == 3);
             assert!(dp1 % 4 == 0 && (dp1 / 4) % 4 == 0);
             assert!(coin.reseeds == 3 && coin.draws == 3 && coin.state == s2d);
             assert!(v.layer_alphas.len() == 3);
@@ -81,8 +88,13 @@ fn new_for(d: usize) {
             assert!(v.max_poly_degree() == d && v.domain_size() == d.next_power_of_two() * 8);
         },
         Err(VerifierError::DegreeTruncation(_, n, depth)) => {
+            assert!(folding_steps + 1 == 3);
             assert!(n == 4);
             assert!((depth == 0 && dp1 % 4 != 0) || (depth == 1 && dp1 % 4 == 0 && (dp1 / 4) % 4 != 0));
+        },
+        Err(VerifierError::NumLayerCommitmentsMismatch(expected, actual)) => {
+            assert!(actual == 3 && expected == folding_steps + 1 && expected != 3);
+            assert!(coin.reseeds == 0 && coin.draws == 0);
         },
         Err(_) => assert!(false),
     }
